@@ -437,6 +437,14 @@ def render(rng, d):
         text = '(' + text.rstrip(';') + ')'
     elif mut == 'embedded_in_select':
         text = "SELECT '" + text.replace("'", "''") + "'"
+    elif mut == 'line_after_statement':
+        text = 'SELECT 1;\n' + text
+    elif mut == 'line_before_statement':
+        text = text.rstrip(';') + ';\nSELECT 2'
+    elif mut == 'line_in_block_comment':
+        text = '/* note:\n' + text + '\n*/ SELECT 3'
+    elif mut == 'line_in_string':
+        text = "SELECT '\n" + text.replace("'", "''") + "\n'"
     return text, {'form': f, 'argval': argval, 'argclass': d['arg']}
 
 
